@@ -199,3 +199,22 @@ def _run_task(t):
         r = Result('?')
         r.fail(fn, dict(args=str(args)[:200]), 'task crashed: ' + traceback.format_exc(limit=4)[-500:])
         return r
+
+
+def disturb(o, seq, rng, k=5):
+    """a series of OTHER public queries on the same object (phosphorylation, cached searches, profiles, complexity, rendering): the
+    properties are stated for the object's sequence, so none of these calls may change what a later query returns"""
+    sty = [i + 1 for i, c in enumerate(seq) if c in 'STY']
+    if sty:
+        quiet(o.set_phosphosites, rng.sample(sty, min(len(sty), rng.randint(1, 3))))
+    pool = ['get_kappa_after_phosphorylation', 'get_phosphosequence', 'get_kappa', 'get_Omega', 'get_deltaMax', 'get_SCD', 'get_isoelectric_point',
+            'get_full_phosphostatus_kappa_distribution', 'get_delta', 'get_FCR', 'get_NCPR', 'get_phasePlotRegion', 'get_HTMLColorString',
+            'get_mean_hydropathy', 'get_molecular_weight', 'get_all_phosphorylatable_sites', 'get_Omega_sequence']
+    w = max(1, min(len(seq), rng.choice([1, 2, 5, 6])))
+    for m in rng.sample(pool, min(k, len(pool))):
+        quiet(getattr(o, m))
+    for m in rng.sample(['get_linear_FCR', 'get_linear_NCPR', 'get_linear_sigma', 'get_linear_hydropathy', 'get_linear_sequence_composition'], 2):
+        quiet(getattr(o, m), w)
+    quiet(o.get_deltaMax, True)
+    if rng.random() < 0.5:
+        quiet(o.clear_phosphosites)
